@@ -86,6 +86,8 @@ func runC04(r *engine.Run) {
 	r.Rule("FRESH-pathbuf", "see C01: Insert hands the walk a copy of the caller's path, never the parameter itself or a slice of it (nodes keep sub-slices of the walked path; the saved state of a caller that refills one key buffer would otherwise lose nodes)")
 	r.Rule("WHO-deadlist", "see C05: a node that goes through the change collector is never also parked in deleteNodes, the dead list nothing reconciles (re-created later in the round it would still be reported dead, and the prune would delete a node a saved root uses)")
 	r.Rule("AGREE-split", "see C02: wherever the trie builds a leaf, its position prefix and its remaining path are cut from the same slice at the same point (prefix + path = the key): the prefix is part of the hash pre-image, so two entries with equal suffix and value but a wrong prefix collapse into one stored node, and deleting one of them records the other's node dead")
+	r.Rule("DOM-adopt", "see C03: a merge never reports success while the parent keeps a root different from the child's (a child that collected no new node - it emptied the trie - is merged like any other: the round would otherwise be saved at a stale root)")
+	r.Rule("LOCK-snapshot", "see C16: SaveChanges takes its snapshot of the change collector with the trie's read lock held (a snapshot taken in the middle of a merge is complete for neither root, and the save reports success)")
 	r.NotDec = append(r.NotDec, "completeness of the change set for every history (needs the map semantics of C01)", "RocksDB's own crash behaviour")
 	whoCollect(r)
 	orderKeySave(r)
@@ -99,12 +101,13 @@ func runC04(r *engine.Run) {
 	domMergeAll(r, "DOM-mergeall")
 	orderStamp(r, "ORDER-stamp")
 	domMerge(r)
-	mptLockDiscipline(r)
+	cloneUnderLock(r, mptLockDiscipline(r))
 	agreeMergeSnapshot(r, "AGREE-snapshot")
 	cloneDeep(r)
 	whoDeadList(r, "WHO-deadlist")
 	agreeSplit(r)
 	errSelect(r, "ERR-select", funcsOfPkg(r, pkgUtil), 1)
+	domAdopt(r, "DOM-adopt")
 	freshPathBuf(r, "FRESH-pathbuf")
 }
 
